@@ -4,6 +4,7 @@
 (*    got  |-> [runs  |-> << [src, m (index into masks), npoly, nfeat, polys, tainted, crash, err] >>,   *)
 (*              annot |-> << Member.Orientation after annotate.Relations >>, annerr,                     *)
 (*              pipe  |-> the run that converts the relation as annotated by annotate.Relations] ]       *)
+(* runs: separate node objects x every mask of the case, annotated way nodes x masks 1 (none) and 2 (all).  *)
 (* Verdict clauses (the listed property):  RingsRecovered for every run, SameForBothCoordinateSources,   *)
 (* SameWithOrWithoutOrientation, OrientationAnnotated.  Additionally the exact result predicted by the   *)
 (* Model (RunModel) is compared with the recorded one: a mismatch alone is a DIVERGENCE, not a violation.*)
